@@ -1,0 +1,11 @@
+//go:build !verif
+
+package vm
+
+import (
+	"github.com/paulsonkoly/calc/memory"
+	"github.com/paulsonkoly/calc/types/bytecode"
+	"github.com/paulsonkoly/calc/types/value"
+)
+
+func verifStep(int, bytecode.Type, *memory.Type, value.Type) {}
